@@ -62,7 +62,24 @@ pub fn gen_op(
         Node::Neq { left, right } => gen_magic(NEQ, ast, left, right, env, ctx, constr),
         Node::Eq { left, right } => gen_magic(EQ, ast, left, right, env, ctx, constr),
 
-        Node::AddU { expr } | Node::SubU { expr } => generate(expr, env, ctx, constr),
+        Node::AddU { expr } => generate(expr, env, ctx, constr),
+        Node::SubU { expr } => {
+            // Negation is the operand's own: its class says whether it has one and what it gives.
+            let res = generate(expr, env, ctx, constr)?;
+            let name = StringName::from("__neg__");
+            let args = vec![Expected::from(expr)];
+            let negation = Access {
+                entity: Box::new(Expected::from(expr)),
+                name: Box::new(Expected::new(expr.pos, &Function { name, args })),
+            };
+            constr.add(
+                "negation",
+                &Expected::from(ast),
+                &Expected::new(expr.pos, &negation),
+                env,
+            );
+            Ok(res)
+        }
         Node::Sqrt { expr } => {
             let ty = Type {
                 name: Name::from(FLOAT),
